@@ -1,3 +1,4 @@
+import QF.Props.Tie
 import QF.Core.Small
 /-!
 # C08 — New reproduces its input; string storage
@@ -12,5 +13,11 @@ theorem pointer_roundtrip (offset length : Nat) (isNull : Bool) (ho : offset < 2
       Small.pLen (Small.newPointer offset length isNull) = length ∧
         Small.pIsNull (Small.newPointer offset length isNull) = isNull :=
   Small.pointer_roundtrip offset length isNull ho hl
+
+/-- T1: the functions this property's mirror model follows have today the source text the model was written against. -/
+theorem tie : Tie.sameAll ["strings.nullBit", "strings.NewPointer", "strings.Pointer.Offset", "strings.Pointer.Len", "strings.Pointer.IsNull", "strings.CheckName", "strings.isQuoted", "qframe.New", "qframe.createColumn", "qframe.Slice", "qframe.Select", "qframe.QFrame.Drop", "qframe.QFrame.Copy", "scolumn.New", "scolumn.NewConst", "icolumn.NewConst"] = true := by decide
+
+/-- The null marker of packed string pointers is bit 63. -/
+theorem gen_null_bit : Gen.consts.lookup "strings.nullBit" = some "0x8000000000000000" := by decide
 
 end QF.Props.C08
